@@ -431,7 +431,7 @@ pub fn cases(tier: Tier) -> Vec<Case> {
     let base = |kind: &str| Case { kind: kind.into(), nx: 0, ny: 0, bits: 0, drop: -1, jitter: 0, relabel: 0, pose: 0, name: String::new() };
     let sizes: &[(usize, usize)] = match tier {
         Tier::Quick => &[(2, 2), (3, 2), (3, 3), (4, 3)],
-        Tier::Thorough => &[(2, 2), (3, 2), (3, 3), (4, 3), (4, 4)],
+        Tier::Thorough => &[(2, 2), (3, 2), (3, 3), (4, 3), (4, 4), (5, 3), (5, 4)],
     };
     for &(nx, ny) in sizes {
         let cells = (nx - 1) * (ny - 1);
@@ -488,8 +488,8 @@ pub fn cases(tier: Tier) -> Vec<Case> {
 
 pub fn run(tier: Tier) -> i32 {
     let mut cx = Ctx::new("C20", tier, "exploration");
-    cx.rule = "planar disks: m x n vertex grids (2x2 .. 4x3, thorough 4x4) with every diagonal assignment (2^cells), every single corner cell removed (non-convex outline), interior vertices displaced on a quarter-step lattice (3 patterns), fans without interior vertex (1..5 triangles); every vertex relabelling for <= 6 vertices, 5 fixed relabellings beyond; 5 poses; curved height-field disks for the invariance clause; rejection inputs (tetrahedron, box, octahedron, annulus, two disjoint disks, three faces on one edge, an interior face listed twice with either winding); disks whose vertex array holds unused vertices; UV round trips at 4 barycentric points of every face. distinct = distinct cases".into();
-    cx.bounds = json!({"largest_grid": tier.pick("4x3", "4x4"), "poses": 5, "relabellings_small": "all n!", "relabellings_large": 5});
+    cx.rule = "planar disks: m x n vertex grids (2x2 .. 4x3, thorough up to 5x4) with every diagonal assignment (2^cells), every single corner cell removed (non-convex outline), interior vertices displaced on a quarter-step lattice (3 patterns), fans without interior vertex (1..5 triangles); every vertex relabelling for <= 6 vertices, 5 fixed relabellings beyond; 5 poses; curved height-field disks for the invariance clause; rejection inputs (tetrahedron, box, octahedron, annulus, two disjoint disks, three faces on one edge, an interior face listed twice with either winding); disks whose vertex array holds unused vertices; UV round trips at 4 barycentric points of every face. distinct = distinct cases".into();
+    cx.bounds = json!({"largest_grid": tier.pick("4x3", "5x4"), "poses": 5, "relabellings_small": "all n!", "relabellings_large": 5});
     cx.require(&["regular grid disk", "non-convex outline", "displaced interior vertices", "disk without interior vertex", "posed in 3D", "relabelled vertices", "curved disk", "non-disk input", "UV round trip", "UV round trip through a mirrored map", "sheared grid (obtuse triangles)"]);
     cx.assume("edge lengths compared at 1e-6 relative (the solver adds a 1e-8 regulariser)");
     let cs = cases(tier);
